@@ -218,7 +218,8 @@ def fileQuery (f : ElfBytes) (q : String) : String :=
     "V=" ++ showOut (showOpt fun t => symverQueries t (splitNats body)) f.symbolVersionTable
   | _ => "bad-query"
 
-def handle (line : String) : String :=
+def handle (line0 : String) : String :=
+  let line := (line0.splitOn "\t").headD ""
   match line.trimAscii.toString.splitOn " " with
   | ["int", le, ty, off, hex] =>
     match parseTy ty with
